@@ -64,6 +64,16 @@ class InterFlow(Flow):
             return ("tuple", tuple(self.eval(x, env) for x in e.elts))
         return super().eval_other(e, env)
 
+    def store_subscript(self, target, v, env):
+        from .flow import path_key
+        b = path_key(target.value)
+        if b is not None and isinstance(target.slice, ast.Constant) and isinstance(target.slice.value, str):
+            cur = env.get(b)
+            if isinstance(cur, tuple) and cur and cur[0] == "dictlit":
+                d = dict(cur[1])
+                d[target.slice.value] = v
+                env[b] = ("dictlit", tuple(d.items()))
+
     def unpack(self, v, n, value_expr, env):
         if isinstance(v, tuple) and v and v[0] == "tuple" and len(v[1]) == n:
             return list(v[1])
